@@ -1116,6 +1116,150 @@ def _unroll_literal_loops(tree: ast.Module) -> int:
   return n
 
 
+# --------------------------------------------------------------------------- scalar replacement of local records
+def _record_classes(tree: ast.Module) -> Dict[str, List[Tuple[str, Optional[ast.AST]]]]:
+  """NamedTuple / dataclass classes of the module: name -> [(field, default or None)] in declaration order."""
+  out: Dict[str, List[Tuple[str, Optional[ast.AST]]]] = {}
+  for st in tree.body:
+    if not isinstance(st, ast.ClassDef):
+      continue
+    bases = {(b.attr if isinstance(b, ast.Attribute) else getattr(b, 'id', '')) for b in st.bases}
+    decos = {(d.func if isinstance(d, ast.Call) else d) for d in st.decorator_list}
+    deco_names = {(d.attr if isinstance(d, ast.Attribute) else getattr(d, 'id', '')) for d in decos}
+    if 'NamedTuple' not in bases and 'dataclass' not in deco_names:
+      continue
+    if 'dataclass' in deco_names and st.bases:
+      continue
+    fields = [(m.target.id, m.value) for m in st.body if isinstance(m, ast.AnnAssign) and isinstance(m.target, ast.Name)]
+    if fields:
+      out[st.name] = fields
+  return out
+
+
+def _sroa_function(fn: ast.FunctionDef, records: Dict[str, List[Tuple[str, Optional[ast.AST]]]]) -> int:
+  """`r = Rec(a, f=b)` bound once, `r` used only as `r.<field>` loads: the record is replaced by one local per
+  field (`r__f`), so dataflow through a NamedTuple carrier looks like dataflow through plain locals."""
+  n = 0
+  stores: Dict[str, List[ast.Assign]] = {}
+  for x in ast.walk(fn):
+    if isinstance(x, ast.Assign) and len(x.targets) == 1 and isinstance(x.targets[0], ast.Name):
+      stores.setdefault(x.targets[0].id, []).append(x)
+  all_stores: Dict[str, int] = {}
+  for x in ast.walk(fn):
+    if isinstance(x, ast.Name) and isinstance(x.ctx, (ast.Store, ast.Del)):
+      all_stores[x.id] = all_stores.get(x.id, 0) + 1
+  params = {a.arg for a in fn.args.args + fn.args.kwonlyargs + fn.args.posonlyargs}
+  for name, asg in stores.items():
+    if len(asg) != 1 or all_stores.get(name, 0) != 1 or name in params:
+      continue
+    a = asg[0]
+    v = a.value
+    if not (isinstance(v, ast.Call) and isinstance(v.func, ast.Name) and v.func.id in records):
+      continue
+    fields = records[v.func.id]
+    if any(isinstance(x, ast.Starred) for x in v.args) or any(k.arg is None for k in v.keywords) or len(v.args) > len(fields):
+      continue
+    vals: Dict[str, ast.AST] = {}
+    for (f, _), arg in zip(fields, v.args):
+      vals[f] = arg
+    for k in v.keywords:
+      vals[k.arg] = k.value
+    ok = True
+    for f, d in fields:
+      if f not in vals:
+        if d is None:
+          ok = False
+        else:
+          vals[f] = d
+    if not ok or set(vals) != {f for f, _ in fields}:
+      continue
+    # every other mention of the record must be a field load
+    uses = [x for x in ast.walk(fn) if isinstance(x, ast.Name) and x.id == name and isinstance(x.ctx, ast.Load)]
+    attr_uses = [x for x in ast.walk(fn) if isinstance(x, ast.Attribute) and isinstance(x.value, ast.Name)
+                 and x.value.id == name and isinstance(x.ctx, ast.Load) and x.attr in vals]
+    if len(uses) != len(attr_uses) or not uses:
+      continue
+    # nested scopes that mention the record: give up (late binding)
+    nested = [y for y in ast.walk(fn) if y is not fn and isinstance(y, (ast.FunctionDef, ast.Lambda))]
+    if any(isinstance(z, ast.Name) and z.id == name for y in nested for z in ast.walk(y)):
+      continue
+    repl = [ast.copy_location(ast.Assign(targets=[ast.Name(id=f'{name}__{f}', ctx=ast.Store())], value=vals[f],
+                                         lineno=a.lineno), a) for f, _ in fields]
+    for r in repl:
+      ast.fix_missing_locations(r)
+
+    class _R(ast.NodeTransformer):
+      def visit_Attribute(self, x: ast.Attribute):
+        if isinstance(x.value, ast.Name) and x.value.id == name and isinstance(x.ctx, ast.Load) and x.attr in vals:
+          return ast.copy_location(ast.Name(id=f'{name}__{x.attr}', ctx=ast.Load()), x)
+        return self.generic_visit(x)
+
+    def splice(stmts: List[ast.stmt]) -> bool:
+      for i, st in enumerate(stmts):
+        if st is a:
+          stmts[i:i + 1] = repl
+          return True
+        for fld in ('body', 'orelse', 'finalbody'):
+          b = getattr(st, fld, None)
+          if isinstance(b, list) and splice(b):
+            return True
+        if isinstance(st, ast.Try):
+          for h in st.handlers:
+            if splice(h.body):
+              return True
+      return False
+    if not splice(fn.body):
+      continue
+    _R().visit(fn)
+    n += 1
+  return n
+
+
+def _split_tuple_assigns(fn: ast.FunctionDef, records) -> int:
+  """`a, b = (x, y)` / `a, b = Rec(x, y)` (what a tuple-returning helper leaves behind after inlining) becomes
+  `a = x; b = y` when no target is read by a later element."""
+  n = 0
+
+  def do_block(stmts: List[ast.stmt]) -> None:
+    nonlocal n
+    i = 0
+    while i < len(stmts):
+      st = stmts[i]
+      for fld in ('body', 'orelse', 'finalbody'):
+        b = getattr(st, fld, None)
+        if isinstance(b, list) and not isinstance(st, (ast.FunctionDef, ast.ClassDef)):
+          do_block(b)
+      if isinstance(st, ast.Try):
+        for h in st.handlers:
+          do_block(h.body)
+      if isinstance(st, ast.Assign) and len(st.targets) == 1 and isinstance(st.targets[0], ast.Tuple) \
+          and all(isinstance(t, ast.Name) for t in st.targets[0].elts):
+        tg = st.targets[0].elts
+        v = st.value
+        elts = None
+        if isinstance(v, ast.Tuple) and len(v.elts) == len(tg) and not any(isinstance(e, ast.Starred) for e in v.elts):
+          elts = list(v.elts)
+        elif isinstance(v, ast.Call) and isinstance(v.func, ast.Name) and v.func.id in records and not v.keywords \
+            and len(v.args) == len(tg) == len(records[v.func.id]) and not any(isinstance(e, ast.Starred) for e in v.args):
+          elts = list(v.args)
+        if elts is not None:
+          tnames = [t.id for t in tg]
+          clash = any(isinstance(x, ast.Name) and x.id in tnames[:k] for k, e in enumerate(elts) for x in ast.walk(e))
+          if not clash:
+            new = [ast.copy_location(ast.Assign(targets=[ast.Name(id=t.id, ctx=ast.Store())], value=e, lineno=st.lineno), st)
+                   for t, e in zip(tg, elts)]
+            for x in new:
+              ast.fix_missing_locations(x)
+            stmts[i:i + 1] = new
+            i += len(new)
+            n += 1
+            continue
+      i += 1
+
+  do_block(fn.body)
+  return n
+
+
 # --------------------------------------------------------------------------- alias propagation
 def _propagate_param_aliases(fn: ast.FunctionDef) -> int:
   """`x = <param>.<a>.<b>` at the top level of a function, x never re-bound, the parameter never re-bound:
@@ -1173,6 +1317,12 @@ def normalise(tree: ast.Module, exclude: Optional[Set[str]] = None) -> int:
   inl = _Inliner(tree, ex)
   n = inl.run()
   n += _unroll_literal_loops(tree)
+  records = _record_classes(tree)
+  for x in ast.walk(tree):
+    if isinstance(x, ast.FunctionDef):
+      n += _split_tuple_assigns(x, records)
+      if records:
+        n += _sroa_function(x, records)
   for x in ast.walk(tree):
     if isinstance(x, ast.FunctionDef):
       n += _propagate_param_aliases(x)
